@@ -29,7 +29,10 @@ RULE = (
     'Oracle: every thread returns exactly what the same program returns when run alone '
     '(canonical forms, history shape, exception class), sequence ids are pairwise distinct '
     'across threads and strictly increasing within each thread, the in-build flag and the '
-    'tracking flag are as the thread itself set them at every pre-emption. Non-trivial: a '
+    'tracking flag are as the thread itself set them at every pre-emption. Besides the random '
+    'schedules, two systematic sweeps: every k-th single pre-emption of fixed program pairs, and '
+    'all double pre-emptions (0->1 at i, 1->0 at j) over the history.py steps that touch the '
+    'tracking flag. Non-trivial: a '
     'pre-emption hits a thread while it is inside fdl.build or inside suspend_tracking, or '
     'inside one of the shared-state modules, and another thread then runs.'
 )
@@ -74,6 +77,16 @@ def enumerate_cases(tier):
   for a, b in use:
     for k in range(1, 1500, stride):
       yield {'progs': [{'p': a, 'k': 1}, {'p': b, 'k': 2}], 'pre': [], 'single': k}
+  # Systematic double pre-emptions (0 -> 1 at step i of thread 0, 1 -> 0 at step j of thread 1, the
+  # rest runs to completion): both points range over the steps inside history.py that read or
+  # write the tracking flag (quick) / over every history.py step outside the stack walk (thorough).
+  dpairs = [('edits', 'edits')] if tier != 'thorough' else [('edits', 'edits'), ('edits', 'tags'), ('tags', 'edits')]
+  limit = 40 if tier != 'thorough' else 170
+  for a, b in dpairs:
+    for i in range(limit):
+      for j in range(limit):
+        yield {'progs': [{'p': a, 'k': 1}, {'p': b, 'k': 2}], 'pre': [], 'double': [i, j],
+               'cand': 'tracking' if tier != 'thorough' else 'history'}
 
 
 # ---------------------------------------------------------------------------
@@ -250,6 +263,20 @@ def check(case):
       out.skipped = 'beyond-last-step'
       return out
     preempt[(0, k)] = 1
+  elif 'double' in case:
+    def cands(st_):
+      if case['cand'] == 'tracking':
+        return [i + 1 for i, tr in enumerate(st_.trace) if tr[0] == 'history.py' and 'tracking' in tr[2]]
+      return [i + 1 for i, tr in enumerate(st_.trace)
+              if tr[0] == 'history.py' and tr[2] != '_stacktrace_location_provider']
+    c0, c1 = cands(solo[0]), cands(solo[1])
+    i, j = case['double']
+    if i >= len(c0) or j >= len(c1):
+      out.skipped = 'beyond-last-step'
+      return out
+    preempt[(0, c0[i])] = 1
+    preempt[(1, c1[j])] = 0
+    out.cls('double_preemption')
   else:
     for pr in case['pre']:
       t, to = pr['t'], pr['to']
